@@ -136,6 +136,10 @@ theorem deviceData_encrypted_ignores_edns (f : S_devicefinder_Default) (ri : Opt
 
 abbrev DD := String × Option S_devicefinder_extHumanID × Option String
 
+/-- Device data with the error reduced to "is there one" (the text of a non-nil error is the source
+text of the expression that made it; the theorems do not depend on it). -/
+def noText (d : DD) : String × Option S_devicefinder_extHumanID × Bool := (d.1, d.2.1, d.2.2.isSome)
+
 /-- DoH: data (or an error) found in the HTTP request win; the TLS server name is not consulted. -/
 theorem srvReqInfo_doh_first (f : S_devicefinder_Default) (srv : S_agd_Server) (ri : Option S_dnsserver_RequestInfo)
     (doh : DD) (sni : String → DD) (hsrv : f.srv = some srv) (hp : srv.Protocol = 3)
@@ -151,25 +155,26 @@ theorem srvReqInfo_doh_first (f : S_devicefinder_Default) (srv : S_agd_Server) (
 /-- What the TLS-server-name step yields (both for DoT/DoQ and for DoH with nothing in the HTTP
 request): nothing without device domains; otherwise the data parsed from the *request's* server name,
 and a parse error is an error result without any identifier. -/
-def sniStep (f : S_devicefinder_Default) (ri : Option S_dnsserver_RequestInfo) (sni : String → DD) : Option DD :=
-  if f.deviceDomains = [] then some ("", none, none)
-  else ri.map fun r => if (sni r.TLSServerName).2.2.isSome then ("", none, some "newDeviceDataError(err, \"tls server name\")")
-    else ((sni r.TLSServerName).1, (sni r.TLSServerName).2.1, none)
+def sniStep (f : S_devicefinder_Default) (ri : Option S_dnsserver_RequestInfo) (sni : String → DD) :
+    Option (String × Option S_devicefinder_extHumanID × Bool) :=
+  if f.deviceDomains = [] then some ("", none, false)
+  else ri.map fun r => if (sni r.TLSServerName).2.2.isSome then ("", none, true)
+    else ((sni r.TLSServerName).1, (sni r.TLSServerName).2.1, false)
 
 /-- DoT / DoQ (not DoH): whatever the DoH extraction would have produced has no influence; the
 result is the server-name step's.  DoH with an empty HTTP result falls through to the same step. -/
 theorem srvReqInfo_sni (f : S_devicefinder_Default) (srv : S_agd_Server) (ri : Option S_dnsserver_RequestInfo)
     (doh : DD) (sni : String → DD) (hsrv : f.srv = some srv)
     (h : srv.Protocol ≠ 3 ∨ doh = ("", none, none)) :
-    Default_deviceDataFromSrvReqInfo f ri doh sni = sniStep f ri sni := by
-  unfold Default_deviceDataFromSrvReqInfo sniStep
+    (Default_deviceDataFromSrvReqInfo f ri doh sni).map noText = sniStep f ri sni := by
+  unfold Default_deviceDataFromSrvReqInfo sniStep noText
   cases hdd : f.deviceDomains with
   | nil => by_cases hp : srv.Protocol = 3 <;> simp_all
   | cons d t =>
     have hl : ¬ ((t.length : Int) + 1 = 0) := by omega
     cases ri with
     | none => by_cases hp : srv.Protocol = 3 <;> simp_all
-    | some r => by_cases hp : srv.Protocol = 3 <;> simp_all <;> split <;> simp_all
+    | some r => cases hs : (sni r.TLSServerName).2.2 <;> by_cases hp : srv.Protocol = 3 <;> simp_all
 
 /-- It panics only on a nil server, or on a nil request info when the server name is needed. -/
 theorem srvReqInfo_no_panic (f : S_devicefinder_Default) (srv : S_agd_Server) (r : S_dnsserver_RequestInfo)
@@ -186,19 +191,19 @@ human ID, and the URL (its data or its error) has no influence.  An invalid user
 without identifier. -/
 theorem doh_userinfo_first (f : S_devicefinder_Default) (ri : Option S_dnsserver_RequestInfo) (user : String)
     (newID : String → String × Option String) (url url' : DD) :
-    Default_deviceDataForDoH f ri true user newID url =
-      (if (newID user).2.isSome then ("", none, some "newDeviceDataError(err, \"basic auth\")")
-       else ((newID user).1, none, none)) ∧
+    noText (Default_deviceDataForDoH f ri true user newID url) =
+      (if (newID user).2.isSome then ("", none, true) else ((newID user).1, none, false)) ∧
     Default_deviceDataForDoH f ri true user newID url = Default_deviceDataForDoH f ri true user newID url' := by
-  simp [Default_deviceDataForDoH]
+  simp [Default_deviceDataForDoH, noText]
+  split <;> simp_all
 
 /-- Without userinfo the data are the URL path's; a path error is an error without identifier. -/
 theorem doh_no_userinfo_url (f : S_devicefinder_Default) (ri : Option S_dnsserver_RequestInfo) (user : String)
     (newID : String → String × Option String) (url : DD) :
-    Default_deviceDataForDoH f ri false user newID url =
-      (if url.2.2.isSome then ("", none, some "newDeviceDataError(err, \"http url path\")")
-       else (url.1, url.2.1, none)) := by
-  simp [Default_deviceDataForDoH]
+    noText (Default_deviceDataForDoH f ri false user newID url) =
+      (if url.2.2.isSome then ("", none, true) else (url.1, url.2.1, false)) := by
+  simp [Default_deviceDataForDoH, noText]
+  split <;> simp_all
 
 /-- `deviceDataFromDoHURL`: the identifier text is the *second* path element of a two-element path;
 a one-element path carries nothing; a path error is passed on.  The index never panics, for any
@@ -230,52 +235,55 @@ theorem goSplit_ne_nil (s sep : String) : goSplit s sep ≠ [] := by
 
 /-- The decision list of `pathElements` on the split path, written out (compare
 `Agd.Device.pathElements`, which has the same shape on `cleanElems`). -/
-def peSpec (els0 : List String) : List String × Option String :=
+def peSpec (els0 : List String) : List String × Bool :=
   match (if els0.head? = some "" then els0.tail else els0) with
-  | [] => ([], some "fmt.Errorf(\"path elems: %w\", errors.ErrNoValue)")
+  | [] => ([], true)
   | e0 :: rest =>
-    if e0 = "" then ([], some "fmt.Errorf(\"path elems: %w\", errors.ErrNoValue)")
-    else if rest.length > 1 then ([], some "fmt.Errorf(\"%d extra path elems\", l-2)")
-    else if !(goHasSuffix "/dns-query" e0) && !(goHasSuffix "/resolve" e0) then ([], some "not a dns path")
-    else (e0 :: rest, none)
+    if e0 = "" then ([], true)
+    else if rest.length > 1 then ([], true)
+    else if !(goHasSuffix "/dns-query" e0) && !(goHasSuffix "/resolve" e0) then ([], true)
+    else (e0 :: rest, false)
 
 /-- `pathElements` never panics (its `elems[0]` reads are guarded by `strings.Split` returning at
 least one element and by the `l == 0` test after the re-slice) and is that decision list, for every
 path and every `path.Clean`. -/
 theorem pathElements_eq (p : String) (clean : String → String) :
-    pathElements p clean = some (peSpec (goSplit (clean p) "/")) := by
+    (pathElements p clean).map (fun r => (r.1, r.2.isSome)) = some (peSpec (goSplit (clean p) "/")) := by
   unfold pathElements peSpec
   rcases h : goSplit (clean p) "/" with _ | ⟨a, _ | ⟨b, _ | ⟨c, r⟩⟩⟩
   · exact absurd h (goSplit_ne_nil _ _)
-  · by_cases ha : a = "" <;> simp [ha, goIndex?]
-    cases goHasSuffix "/dns-query" a <;> cases goHasSuffix "/resolve" a <;> simp
-  · by_cases ha : a = "" <;> by_cases hb : b = "" <;> simp [ha, hb, goIndex?] <;>
-      cases goHasSuffix "/dns-query" a <;> cases goHasSuffix "/resolve" a <;>
-      cases goHasSuffix "/dns-query" b <;> cases goHasSuffix "/resolve" b <;> simp
+  · by_cases ha : a = "" <;> cases hq : goHasSuffix "/dns-query" a <;> cases hr : goHasSuffix "/resolve" a <;>
+      simp [ha, hq, hr, goIndex?]
+  · by_cases ha : a = "" <;> by_cases hb : b = "" <;>
+      cases hq : goHasSuffix "/dns-query" a <;> cases hr : goHasSuffix "/resolve" a <;>
+      cases hq' : goHasSuffix "/dns-query" b <;> cases hr' : goHasSuffix "/resolve" b <;>
+      simp [ha, hb, hq, hr, hq', hr', goIndex?]
   · have e3 : ((r.length : Int) + 1 + 1 + 1).toNat = r.length + 3 := by omega
     have c3 : (1 : Int) ≤ (r.length : Int) + 1 + 1 + 1 := by omega
     have n3 : ¬ ((r.length : Int) + 1 + 1 + 1 = 0) := by omega
     have g3 : (2 : Int) < (r.length : Int) + 1 + 1 + 1 := by omega
-    by_cases ha : a = "" <;> by_cases hb : b = "" <;> simp [ha, hb, goIndex?, e3, c3, n3, g3]
     have n2 : ¬ ((r.length : Int) + 1 + 1 = 0) := by omega
     by_cases hr : 0 < r.length
-    · have : (2 : Int) < (r.length : Int) + 1 + 1 := by omega
-      simp [hr, this, n2]
-    · have : ¬ (2 : Int) < (r.length : Int) + 1 + 1 := by omega
-      simp [hr, this]
-      cases goHasSuffix "/dns-query" b <;> cases goHasSuffix "/resolve" b <;> simp [n2]
+    · have g2 : (2 : Int) < (r.length : Int) + 1 + 1 := by omega
+      by_cases ha : a = "" <;> by_cases hb : b = "" <;> simp [ha, hb, goIndex?, e3, c3, n3, g3, n2, g2, hr]
+    · have g2 : ¬ (2 : Int) < (r.length : Int) + 1 + 1 := by omega
+      by_cases ha : a = "" <;> by_cases hb : b = "" <;>
+        cases hq' : goHasSuffix "/dns-query" b <;> cases hr' : goHasSuffix "/resolve" b <;>
+        simp [ha, hb, hq', hr', goIndex?, e3, c3, n3, g3, n2, g2, hr]
 
 theorem pathElements_no_panic (p : String) (clean : String → String) : pathElements p clean ≠ none := by
-  simp [pathElements_eq]
+  intro h
+  have := pathElements_eq p clean
+  simp [h] at this
 
 /-- The documented guarantee `deviceDataFromDoHURL` relies on: without error there are one or two
 elements, the first is non-empty and is a suffix of `/dns-query` or `/resolve`; with an error there
 are no elements. -/
 theorem peSpec_ok (els0 : List String) :
-    ((peSpec els0).2 = none → ((peSpec els0).1.length = 1 ∨ (peSpec els0).1.length = 2) ∧
+    ((peSpec els0).2 = false → ((peSpec els0).1.length = 1 ∨ (peSpec els0).1.length = 2) ∧
         ∃ e0, (peSpec els0).1.head? = some e0 ∧ e0 ≠ "" ∧
           (goHasSuffix "/dns-query" e0 = true ∨ goHasSuffix "/resolve" e0 = true)) ∧
-    ((peSpec els0).2 ≠ none → (peSpec els0).1 = []) := by
+    ((peSpec els0).2 = true → (peSpec els0).1 = []) := by
   unfold peSpec
   split
   · simp
@@ -284,9 +292,9 @@ theorem peSpec_ok (els0 : List String) :
     cases hq : goHasSuffix "/dns-query" e0 <;> cases hr : goHasSuffix "/resolve" e0 <;> simp [h0]
     all_goals (simp [hq, hr]; rcases rest with _ | ⟨x, _ | ⟨y, t⟩⟩ <;> simp_all)
 
-example : peSpec ["", "dns-query", "dev1"] = (["dns-query", "dev1"], none) := by decide
-example : (peSpec ["", "dns-query", "a", "b"]).2 ≠ none := by decide
-example : (peSpec ["", "other"]).2 = some "not a dns path" := by decide
+example : peSpec ["", "dns-query", "dev1"] = (["dns-query", "dev1"], false) := by decide
+example : (peSpec ["", "dns-query", "a", "b"]).2 = true := by decide
+example : (peSpec ["", "other"]).2 = true := by decide
 
 /-! ## TLS server name -/
 
@@ -391,19 +399,21 @@ return.  Only device-not-found leads to `CreateAutoDevice`, with the same profil
 parsed and the ext ID's device type; any other error is an error without profile or device. -/
 theorem deviceByExtID_structure (f : S_devicefinder_Default) (x : S_devicefinder_extHumanID) (lower : String → String)
     (byHuman : String → String → PD) (isProfNF isDevNF isProfNF' : Bool) (create : String → String → Int → PD) :
-    Default_deviceByExtID f (some x) lower byHuman isProfNF isDevNF create isProfNF' = some (
+    (Default_deviceByExtID f (some x) lower byHuman isProfNF isDevNF create isProfNF').map
+        (fun r => (r.1, r.2.1, r.2.2.isSome)) = some (
       let r := byHuman x.ProfileID (lower x.HumanID)
-      if r.2.2.isNone then (r.1, r.2.1, none)
-      else if isProfNF then (none, none, none)
+      if r.2.2.isNone then (r.1, r.2.1, false)
+      else if isProfNF then (none, none, false)
       else if isDevNF then
         let c := create x.ProfileID x.HumanID x.DeviceType
-        if c.2.2.isNone then (c.1, c.2.1, none)
-        else if isProfNF' then (none, none, none)
-        else (none, none, some "fmt.Errorf(\"creating autodevice: %w\", err)")
-      else (none, none, some "fmt.Errorf(\"querying profile db by human id: %w\", err)")) := by
+        if c.2.2.isNone then (c.1, c.2.1, false)
+        else if isProfNF' then (none, none, false)
+        else (none, none, true)
+      else (none, none, true)) := by
   unfold Default_deviceByExtID
-  simp
-  (repeat' split) <;> simp_all
+  cases h1 : (byHuman x.ProfileID (lower x.HumanID)).2.2 <;>
+    cases h2 : (create x.ProfileID x.HumanID x.DeviceType).2.2 <;>
+    cases isProfNF <;> cases isDevNF <;> cases isProfNF' <;> simp [h1, h2]
 
 /-- It panics exactly on a nil ext ID (the caller checks `extID != nil`). -/
 theorem deviceByExtID_panic_iff (f : S_devicefinder_Default) (x : Option S_devicefinder_extHumanID) (lower : String → String)
@@ -411,7 +421,11 @@ theorem deviceByExtID_panic_iff (f : S_devicefinder_Default) (x : Option S_devic
     Default_deviceByExtID f x lower byHuman a b create c = none ↔ x = none := by
   cases x with
   | none => simp [Default_deviceByExtID]
-  | some x => simp [deviceByExtID_structure]
+  | some x =>
+    have := deviceByExtID_structure f x lower byHuman a b c create
+    simp only [reduceCtorEq, iff_false]
+    intro h
+    simp [h] at this
 
 /-- `deviceFromDB`, precedence 1: a non-empty device ID is the only thing looked up — the result is
 `newDeviceResult` of `ProfileByDeviceID(id)` for *that* id; the ext ID, the addresses and the protocol
